@@ -1206,7 +1206,7 @@ PROPS = {
     "C20": dict(module="FV.Props.C20", theorems=["FV.Props.C20_vec_default_partial", "FV.Props.C20_default_valid_partial", "FV.Props.C20_default_content", "FV.Props.C20_str_default_partial", "FV.Props.C20_flex_default_partial", "FV.Props.C20_default_size", "FV.Props.C20_empty_always_accepted"], suites=["emplace"], proj=proj_C20, oracle=oracle_C20, post=post_C20),
     "C11": dict(module="FV.Props.C11", theorems=["FV.Props.C11_vec_step_refines", "FV.Props.C11_history", "FV.Props.C11_valid_gives_invariant", "FV.Props.C11_str_push", "FV.Utf8Ok.append"], suites=["ops"], proj=proj_C11, oracle=oracle_C11),
     "C12": dict(module="FV.Props.C12Push", theorems=["FV.Props.C12_valid_iff_sequence", "FV.Props.C12_truncate", "FV.Props.C12_pop", "FV.Props.C12_push", "FV.Props.C12_pushed_item_content", "FV.Props.C12_history", "FV.Props.C12_push_accepts_iff", "FV.Props.C12_item_edit", "FV.Props.C12_truncate_noop", "FV.Chain.edit", "FV.Props.C12_len_is_empty"], suites=["ops"], proj=proj_C12, oracle=oracle_C12, post=post_witness("C12")),
-    "C13": dict(module="FV.Props.C13", theorems=["FV.Props.C13_vec_refused_unchanged", "FV.Props.C13_flex_push_refused_unchanged", "FV.Props.C13_flex_push_refused_size", "FV.flexPush_refused_size"], suites=["ops"], proj=proj_C13, oracle=oracle_C13),
+    "C13": dict(module="FV.Props.C13", theorems=["FV.Props.C13_vec_refused_unchanged", "FV.Props.C13_flex_push_refused_unchanged", "FV.Props.C13_flex_push_refused_size", "FV.flexPush_refused_size", "FV.Props.C13_vec_any_refusal_unchanged", "FV.Props.C13_flex_pop_empty_unchanged", "FV.Props.C13_any_refusal_unchanged"], suites=["ops"], proj=proj_C13, oracle=oracle_C13),
     "C14": dict(module="FV.Props.C14", theorems=["FV.Props.C14_write_frame", "FV.Props.C14_item_edit_frame", "FV.Props.C14_emplace_inside", "FV.Props.C14_assign_frame", "FV.Props.C14_truncate_frame", "FV.Props.C14_field_write_frame", "FV.Props.posList_disjoint", "FV.Props.C14_setField_frame"], suites=["emplace", "ops"], proj=proj_C14, oracle=oracle_C14),
     "C07": dict(module="FV.Props.C07", theorems=["FV.Props.C07_sender_delivers", "FV.Props.C07_receiver_delivers", "FV.Props.C07_receiver_delivers_anywhere", "FV.Props.C07_emplaced_is_deliverable", "FV.Props.C07_sent_content_arrives", "FV.Props.C07_retain_returns_same", "FV.Ty.addrIndep"], suites=["io"], proj=proj_C07, oracle=oracle_io_basic, post=post_io("C07")),
     "C08": dict(module="FV.Props.C08", theorems=["FV.Props.C08_sender_refines_blocking", "FV.Props.C08_receiver_refines_blocking", "FV.Props.C08_pipe_fifo", "FV.Props.C08_pipe_fair_delivers", "FV.Props.C08_async_receiver_delivers"], suites=["aio"], proj=proj_C08, oracle=oracle_io_basic, post=post_io("C08")),
@@ -1234,7 +1234,7 @@ BRIDGE_GROUPS = {
     "portable": ["portable_table_ok"],
     # decision points: condition, error kind and error position of each refusal, extracted from the source
     # (split by what the decision point belongs to, so that a change to an emplacer's test does not touch the validation properties)
-    "guards": ["guard_checkAlignMin", "guard_iterCheck", "guard_vecValidate", "vec_elems_step", "vec_elems_visited", "guard_strValidate", "str_utf8_pos", "guard_flexSlotAlign", "guard_flexSlot",
+    "guards": ["guard_checkAlignMin", "guard_iterCheck", "guard_bool", "arr_loop_step", "guard_vecValidate", "vec_elems_step", "vec_elems_visited", "guard_strValidate", "str_utf8_pos", "guard_flexSlotAlign", "guard_flexSlot",
                "flex_item_pos_last", "flex_item_pos_inner", "flex_slot_read_pos", "guard_cenum", "guard_uenum", "guards_untranslatable_none"],
     "guards_emplace": ["guard_checkAlignMin", "guard_iterCheck", "guard_initWalker", "guard_vecFromArray", "guard_flexFillRoom", "guard_flexFillItem", "guard_flexFillSeal", "guards_untranslatable_none"],
     "guards_push": ["guard_flexPushSeal", "guard_flexPushTail", "guard_flexTruncate", "guard_flexPop", "guards_untranslatable_none"],
